@@ -80,6 +80,11 @@ def _both_queues_on_change(ctx, crate, b, store_bb, new_role_pred, key, idrole_h
                         if idr in subs:
                             same.add(c.bb)
                 rqs = same
+        # the comparison is made whenever the datum is stored: no guard (`if cheap_test && new != old`) lets a path store a new
+        # datum and return without asking whether it changed
+        ok0 = b.must_pass([0], [store_bb], {sb}) or b.must_pass(b.after(store_bb), b.return_blocks(), {sb})
+        ctx.check(ok0, "change-test-unconditional:" + key, "every path that stores a datum in %s also compares it with the old one" % C.short(b.id),
+                  "in %s a path stores the joined datum and returns without comparing it with the old one (the change test sits behind another condition): a changed datum is not propagated to the parents and Analysis::modify is not triggered" % C.short(b.id), where_of(b, sb))
         ok1 = bool(pushes) and b.must_pass(changed, b.return_blocks(), pushes)
         ok2 = bool(rqs) and b.must_pass(changed, b.return_blocks(), rqs)
         ctx.check(ok1, "modify-queue-on-change:" + key, "when the datum changed the class is pushed to modify_queue",
